@@ -12,8 +12,19 @@
     of the cell's own measurements and put into the abstract tables; the
     observed text (footnote marks and footnote list) and csv warnings must be
     what the rendering model (Render / RenderRun, tied to the code by C16) gives
-    for those tables. *)
-From Perf Require Import Base.Bytes Base.Sx Base.B64 Base.SxF Model.BenchTab Model.Render.
+    for those tables.
+
+    A third case kind (tag 8, "nan-inf"): measurements that are NaN, +Inf or
+    -Inf in samples of at most 32 values; several variants of one input in which
+    the lines of every benchmark are permuted (special values first / in the
+    middle / last). Per variant and cell: the measurements in order of arrival
+    (recorded by the harness before Builder.Add) and the cell as benchtab built
+    it. Specification: every cell's sample is the NaN-first ascending
+    arrangement of its own measurements ([is_sample_of], Model/SampleSort.v),
+    all variants have the same cells with identical contents, and the binary's
+    text and csv bytes are the same for all variants and GOMAXPROCS settings.
+    Model: [sort_go] (sort.Float64s: NaN sorts first). *)
+From Perf Require Import Base.Bytes Base.Sx Base.B64 Base.SxF Model.BenchTab Model.Render Model.SampleSort.
 From Perf Require Corr.RunC14 Corr.RunC16.
 
 Record cellobs := mkCO {
@@ -153,8 +164,54 @@ Section Vary.
     w_identical c && w_race_ok c && forallb shape_ok (w_tabs c) && rendering_matches spec_vary.
 End Vary.
 
+(** * NaN / Inf measurements, permuted lines *)
+Record ncell := mkNC { nc_vals : list b64; nc_obs : cellobs }.
+Record ncase := mkNCase { n_identical : bool; n_race_ok : bool; n_runs : N; n_vars : list (list ncell) }.
+
+Definition as_ncell (s : sx) : option ncell :=
+  match s with
+  | SL [vs; obs] => do vs <- as_list as_f64 vs; do obs <- as_cellobs obs; Some (mkNC vs obs)
+  | _ => None
+  end.
+Definition decode_n (s : sx) : option ncase :=
+  match s with
+  | SL [SZ 8; i; r; n; vars] =>
+      do i <- as_bool i; do r <- as_bool r; do n <- as_N n;
+      do vars <- as_list (as_list as_ncell) vars;
+      Some (mkNCase i r n vars)
+  | _ => None
+  end.
+
+(** the property's clause for one cell: the sample is its measurements, NaN first, then ascending *)
+Definition ncell_spec_ok (c : ncell) : bool := is_sample_of (nc_vals c) (co_sample (nc_obs c)).
+(** the model: sort.Float64s *)
+Definition ncell_model_ok (c : ncell) : bool := fl_same (co_sample (nc_obs c)) (sort_go (nc_vals c)).
+
+(** two variants: the same cells (lists sorted by key), the same contents, the same measurements *)
+Fixpoint all2n (a b : list ncell) : bool :=
+  match a, b with
+  | [], [] => true
+  | x :: a', y :: b' =>
+      cell_same (nc_obs x) (nc_obs y) && same_multiset (nc_vals x) (nc_vals y) && all2n a' b'
+  | _, _ => false
+  end.
+
+Definition prop_ok_n (c : ncase) : bool :=
+  n_identical c && n_race_ok c
+  && match n_vars c with
+     | [] => false
+     | v0 :: rest =>
+         forallb (forallb ncell_spec_ok) (n_vars c) && forallb (all2n v0) rest
+     end.
+Definition corr_ok_n (c : ncase) : bool := forallb (forallb ncell_model_ok) (n_vars c).
+
 Definition run_case (s : sx) : N :=
   match s with
+  | SL (SZ 8 :: _) =>
+      match decode_n s with
+      | Some c => code_of (corr_ok_n c) (prop_ok_n c)
+      | None => code_undecodable
+      end
   | SL (SZ 7 :: _) =>
       match decode_w s with
       | Some c => code_of (corr_ok_w c) (prop_ok_w c)
